@@ -1,8 +1,8 @@
-\* named deviation (must be refuted): embedded view batch count = len/96, as before 1115b56 -> ASSUME ReaderWriterAgree false
+\* named deviation (must be refuted): the relocation map advances the running offset for an array that is already mapped (seeded change C13-s5) -> ASSUME RelocConsistent false
 CONSTANT SubmeshStep = 48
 CONSTANT AnimBoneRule = "table"
-CONSTANT RelocAdvanceAlways = FALSE
-CONSTANT ViewBatchBytes = 96
+CONSTANT RelocAdvanceAlways = TRUE
+CONSTANT ViewBatchBytes = 24
 INIT Init
 NEXT Next
 INVARIANT CursorIsEmitted
